@@ -39,6 +39,7 @@ type c11Case struct {
 	Session  map[string]string `json:"session"`
 	Cookies  map[string]string `json:"cookies"`
 	NoCookie bool              `json:"no_cookie_store,omitempty"`
+	FailOnce string            `json:"fail_once,omitempty"` // "session" | "cookie": that store's first WriteState fails (after taking the events); the handler carries on, e.g. to write an error page
 	Prog     []c11Instr        `json:"prog"`
 	// Chain: the program from index Chain[0] on runs inside event handlers (authboss.Events, the way
 	// modules hook into each other): segment i = Prog[Chain[i]:Chain[i+1]], handler i reports
@@ -69,14 +70,19 @@ type c11State map[string]string
 func (s c11State) Get(k string) (string, bool) { v, ok := s[k]; return v, ok }
 
 type c11Store struct {
-	name  string
-	log   *c11Log
-	state c11State
+	name     string
+	log      *c11Log
+	state    c11State
+	failOnce bool
 }
 
 func (s *c11Store) ReadState(*http.Request) (authboss.ClientState, error) { return s.state, nil }
 func (s *c11Store) WriteState(w http.ResponseWriter, st authboss.ClientState, evs []authboss.ClientStateEvent) error {
 	s.log.add(c11Event{What: "ws:" + s.name, Evs: append([]authboss.ClientStateEvent(nil), evs...), State: st})
+	if s.failOnce {
+		s.failOnce = false
+		return fmt.Errorf("%s store unavailable", s.name)
+	}
 	return nil
 }
 
@@ -118,6 +124,7 @@ func c11Run(c c11Case) *Violation {
 		ab.Config.Storage.CookieState = cook
 	}
 	base := &c11Base{hdr: http.Header{}, log: log}
+	sess.failOnce, cook.failOnce = c.FailOnce == "session", c.FailOnce == "cookie"
 
 	var readProblem string
 	var panicked interface{}
@@ -197,6 +204,14 @@ func c11Run(c c11Case) *Violation {
 		if len(c.Chain) > 0 && c.Chain[0] <= len(c.Prog) {
 			direct = c.Chain[0]
 		}
+		if c.FailOnce != "" {
+			// a handler that survives the failed write (WriteHeader panics on it, Write returns the error) and goes on
+			inner := exec
+			exec = func(in c11Instr, lw http.ResponseWriter, r *http.Request) {
+				defer func() { _ = recover() }()
+				inner(in, lw, r)
+			}
+		}
 		for _, in := range c.Prog[:direct] {
 			exec(in, layers[in.Via%len(layers)], r)
 		}
@@ -230,6 +245,21 @@ func c11Run(c c11Case) *Violation {
 	}
 	if readProblem != "" {
 		return violation("C11", "read-not-request-start", "%s", readProblem)
+	}
+	if c.FailOnce != "" {
+		// with a store failing the statement promises nothing about completeness; "nothing is delivered twice" stands
+		n := map[string]int{}
+		for _, e := range log.events {
+			if strings.HasPrefix(e.What, "ws:") {
+				n[e.What]++
+			}
+		}
+		for what, k := range n {
+			if k > 1 {
+				return violation("C11", "delivered-twice:"+strings.TrimPrefix(what, "ws:")+":after-store-failure", "after the %s store's WriteState failed once, the %s store was handed its events %d times", c.FailOnce, strings.TrimPrefix(what, "ws:"), k)
+			}
+		}
+		return nil
 	}
 
 	// ---- oracle: expected deliveries derived from the program alone
@@ -357,6 +387,9 @@ func c11Gen(t *rapid.T) c11Case {
 	c.Session = kv.Draw(t, "session")
 	c.Cookies = kv.Draw(t, "cookies")
 	c.NoCookie = rapid.IntRange(0, 19).Draw(t, "nocookie") == 0
+	if f := rapid.IntRange(0, 39).Draw(t, "failonce"); f < 2 {
+		c.FailOnce = []string{"session", "cookie"}[f]
+	}
 	nPre := rapid.IntRange(0, 8).Draw(t, "npre")
 	n := nPre + rapid.IntRange(0, 8).Draw(t, "npost")
 	preOps := []string{"put", "put", "put", "del", "del", "delall", "hset", "read", "flush"}
